@@ -61,6 +61,26 @@ pub fn all() -> Vec<Property> {
     ]
 }
 
+/// function-level suites need a shim in src/direct.rs; a suite whose shim's feature is off (because
+/// the helper's signature changed and the harness was rebuilt without it) is not registered
+pub fn suite_feature(name: &str) -> Option<&'static str> {
+    match name {
+        "swap_formula" => Some("d-swap"),
+        "reverse_formula" => Some("d-offer"),
+        "lp_share_formula" => Some("d-lp"),
+        "max_spread_guard" => Some("d-spread"),
+        "slippage_guard" => Some("d-slip"),
+        "funds_comparison" => Some("d-funds"),
+        "registry_key" => Some("d-key"),
+        "route_shape" => Some("d-shape"),
+        _ => None,
+    }
+}
+
 pub fn get(id: &str) -> Option<Property> {
-    all().into_iter().find(|p| p.id == id)
+    let off = crate::direct::disabled();
+    all().into_iter().find(|p| p.id == id).map(|mut p| {
+        p.suites.retain(|s| suite_feature(s.name).map(|f| !off.contains(&f)).unwrap_or(true));
+        p
+    })
 }
